@@ -3,7 +3,7 @@
 from __future__ import annotations
 
 import ast
-from typing import Dict, List, Optional, Set
+from typing import Any, Dict, List, Optional, Set
 
 from ..model import AnalysisError, ClassInfo, FuncInfo, Repo, attr_chain, parent, walk_shallow
 from ..peval import NO_MATCH, Evaluator, NotEvaluable, Obj, Raised, Sym
@@ -233,4 +233,124 @@ def interface(repo: Repo) -> RuleRun:
 
 interface.rule_id = "C16.INTERFACE"
 
-RULES = [knot_dependence, end_pairing, interface]
+def closest_param_search(repo: Repo) -> RuleRun:
+    """Abstract run of the coarse search in CurveBase.get_closest_param: the candidate parameters span the
+    curve's own bounds and the one returned belongs to the closest discretised point."""
+    r = RuleRun(PROP, "C16.CLOSEST-SEARCH", floor=4, what="coarse closest-parameter search: parameters span bounds[0]..bounds[1], one per discretised point, arg-min taken")
+    fn = repo.func("construct.curves.curve.CurveBase.get_closest_param")
+    for lo, hi, dists in ((Sym("LO"), Sym("HI"), [5, 3, 0, 4, 9]), (-7, 12, [9, 8, 7, 1, 6, 5]), (0, 1, [0, 2, 3]), (2, 5, [4, 4, 4, 1])):
+        this = Obj("curve", cls=repo.cls("construct.curves.curve.CurveBase"))
+        this.set("bounds", (lo, hi))
+        pts = [Sym(f"pt{i}") for i in range(len(dists))]
+        calls = {}
+
+        def hook(ev, call: ast.Call, name, pts=pts, dists=dists, calls=calls):
+            nm = (name or "").split(".")[-1]
+            if name in ("np.array", "np.asarray") and call.args:
+                v = ev.eval(call.args[0])
+                return v
+            if attr_chain(call.func) == "self.discretize":
+                calls["discretize"] = [ev.eval(a) for a in call.args]
+                return list(pts)
+            if nm == "norm" and call.args and isinstance(call.args[0], ast.BinOp):
+                a = ev.eval(call.args[0].left)
+                b = ev.eval(call.args[0].right)
+                p_ = a if a in pts else b
+                return dists[pts.index(p_)] if p_ in pts else 0
+            if name in ("np.linspace", "numpy.linspace"):
+                a, b = ev.eval(call.args[0]), ev.eval(call.args[1])
+                num = None
+                for kw in call.keywords:
+                    if kw.arg == "num":
+                        num = ev.eval(kw.value)
+                if num is None and len(call.args) > 2:
+                    num = ev.eval(call.args[2])
+                return [("param", repr(a), repr(b), i, num) for i in range(num)]
+            if name in ("np.argmin", "numpy.argmin"):
+                v = ev.eval(call.args[0])
+                return v.index(min(v))
+            if name in ("np.argmax", "numpy.argmax"):
+                v = ev.eval(call.args[0])
+                return v.index(max(v))
+            return NO_MATCH
+
+        res = _run(Evaluator(repo=repo, module=fn.module, call_hook=hook), fn, [this, Sym("query")])
+        k = dists.index(min(dists))
+        want = ("param", repr(lo), repr(hi), k, len(dists))
+        r.check(
+            res == want,
+            fn,
+            f"bounds ({lo}, {hi}), {len(dists)} samples: parameter #{k} of linspace(bounds[0], bounds[1])",
+            f"CurveBase.get_closest_param on a curve with bounds ({lo}, {hi}) and sample distances {dists} returns {res}; expected parameter #{k} of {len(dists)} values spanning "
+            f"bounds[0]..bounds[1] - a search that assumes the range starts at 0 starts the refinement on the wrong stretch of curves with another lower bound",
+            fn.node,
+            key=f"bounds=({lo},{hi})",
+        )
+    return r
+
+
+closest_param_search.rule_id = "C16.CLOSEST-SEARCH"
+
+
+def stale_alias(repo: Repo) -> RuleRun:
+    """An object may not cache the inner array of a transformable part whose transforms REBIND that
+    array (Array.rotate assigns self.points anew): the cached reference then describes the old geometry."""
+    from ..model import TypeEnv, st_cls
+
+    r = RuleRun(PROP, "C16.STALE-ALIAS", floor=2, what="nobody keeps a reference to an attribute that transformations rebind")
+    elem = repo.cls("base.element.ElementBase")
+    rebound: Dict[str, Set[str]] = {}
+    for cls in [elem, *repo.subclasses(elem)]:
+        for name in ("translate", "rotate", "scale", "mirror", "shear", "update", "move_to"):
+            m = cls.methods.get(name)
+            if m is None:
+                continue
+            for n in walk_shallow(m.node):
+                if isinstance(n, ast.Assign):
+                    for t in n.targets:
+                        if isinstance(t, ast.Attribute) and isinstance(t.value, ast.Name) and t.value.id == m.params[0]:
+                            rebound.setdefault(cls.qualname, set()).add(t.attr)
+    r.require(any("points" in v for k, v in rebound.items() if k.endswith("Array")), "Array no longer rebinds self.points in a transformation (anchor of this rule)")
+    n_sites = 0
+    for fn in sorted(repo.all_functions(), key=lambda f: f.qualname):
+        if fn.cls is None or fn.name != "__init__":
+            continue
+        env = None
+        for n in walk_shallow(fn.node):
+            if not (isinstance(n, (ast.Assign, ast.AnnAssign)) and n.value is not None):
+                continue
+            tgts = n.targets if isinstance(n, ast.Assign) else [n.target]
+            if not any(isinstance(t, ast.Attribute) and isinstance(t.value, ast.Name) and t.value.id == fn.params[0] for t in tgts):
+                continue
+            if env is None:
+                env = TypeEnv(repo, fn)
+            # stores of a whole transformable object are fine; stores of <obj>.<rebound attr> are stale aliases
+            v = n.value
+            src_cls = st_cls(env.type_of(v)) if isinstance(v, (ast.Name, ast.Attribute)) else None
+            if isinstance(v, ast.Attribute):
+                owner = st_cls(env.type_of(v.value))
+                if owner is not None:
+                    attrs = set()
+                    for c in repo.mro(owner):
+                        attrs |= rebound.get(c.qualname, set())
+                    if attrs:
+                        n_sites += 1
+                        r.check(
+                            v.attr not in attrs,
+                            fn,
+                            f"stores {ast.unparse(v)} (not rebound by transformations)",
+                            f"{fn.qualname} keeps a reference to {ast.unparse(v)}, but {owner.name} assigns a NEW '{v.attr}' in rotate/scale/mirror: after such a transformation the stored reference "
+                            "still holds the old coordinates (an interpolated curve would no longer pass through its transformed defining points)",
+                            n,
+                            key=f"{ast.unparse(tgts[0])}",
+                        )
+            elif src_cls is not None and any(rebound.get(c.qualname) for c in repo.mro(src_cls)):
+                n_sites += 1
+                r.ok(fn, f"stores the {src_cls.name} object itself ({ast.unparse(v)})", key=f"{ast.unparse(tgts[0])}")
+    r.require(n_sites >= 2, f"only {n_sites} stores of transformable parts found")
+    return r
+
+
+stale_alias.rule_id = "C16.STALE-ALIAS"
+
+RULES = [knot_dependence, end_pairing, interface, closest_param_search, stale_alias]
